@@ -42,12 +42,13 @@ def run(rep, tier, seed, budget):
 
     plan = []
     if quick:
-        plan += [("chr", n) for n in (1, 2, 3)] + [("tok", n) for n in (1, 2, 3)]
+        plan += [("chr", n) for n in (1, 2, 3)] + [("tok", n) for n in (1, 2)] + [("tok16", 3)]
     else:
         plan += [("chr", n) for n in (1, 2, 3, 4)] + [("tok", n) for n in (1, 2, 3, 4, 5)]
     for kind, n in plan:
         left = t_end - time.time()
-        alts = ench.SMI_CHARS if kind == "chr" else ench.SMI_TOKENS
+        alts = ench.SMI_CHARS if kind == "chr" else (ench.SMI_TOKENS if kind == "tok" else
+                                                    ["C", "N", "c", "n", "[nH]", "[O-]", "=C", ":c", ":C", "(", ")", "1", "=1", "%10", ".", "%1"])
         name = ("M-CHR N=%d: all strings over %d characters" if kind == "chr"
                 else "M-SMI N=%d: all strings over %d SMILES tokens") % (n, len(alts))
         if left < 5:
